@@ -279,6 +279,22 @@ class BuiltinMixin:
             return int(v)
         raise Unsupported(f"int({v!r})")
 
+    def bi_round(self, args, kwargs, node):
+        if len(args) != 1:
+            raise Unsupported("round(x, ndigits)")
+        v = args[0]
+        if not isinstance(v, SV):
+            return round(v)
+        if v.ty == TInt:
+            return v
+        x = lift(v, TReal)
+        r = TInt.fresh("round")
+        d = z3.ToReal(r.t) - x.t
+        # round-half-even over the rationals (float arithmetic treated as exact: stated assumption)
+        self.st.pc.append(z3.And(d <= z3.RealVal("1/2"), d >= z3.RealVal("-1/2"),
+                                 z3.Implies(z3.Or(d == z3.RealVal("1/2"), d == z3.RealVal("-1/2")), r.t % 2 == 0)))
+        return r
+
     def bi_float(self, args, kwargs, node):
         v = args[0]
         if isinstance(v, SV):
